@@ -25,8 +25,9 @@ def make_params(draw):
     out = []
     for g in draw["groups"]:
         ps = []
-        for shp in g["shapes"]:
-            t = torch.randn(tuple(shp), generator=gen, dtype=torch.float64).to(dt)
+        for pi, shp in enumerate(g["shapes"]):
+            pdt = DT[g["dtypes"][pi]] if g.get("dtypes") else dt          # optional per-parameter dtypes (mixed-precision groups)
+            t = torch.randn(tuple(shp), generator=gen, dtype=torch.float64).to(pdt)
             ps.append(torch.nn.Parameter(t))
         out.append(ps)
     return out
@@ -58,7 +59,8 @@ def make_grad(draw, gi, pi, t, shape, scale=1.0):
         idx = [slice(None)] * g.dim()
         idx[dim] = slice(1, None, 2)
         g[tuple(idx)] = 0.0
-    return g.to(DT[draw["dtype"]])
+    gd = draw["groups"][gi].get("dtypes") if gi < len(draw["groups"]) else None
+    return g.to(DT[gd[pi]] if gd else DT[draw["dtype"]])
 
 
 def pc_config(g):
